@@ -8,7 +8,6 @@ import (
 	"github.com/jhump/protoreflect/desc"
 	"github.com/jhump/protoreflect/dynamic"
 	"github.com/jhump/protoreflect/dynamic/grpcdynamic"
-	grpcgun "github.com/yandex/pandora/components/guns/grpc"
 	"github.com/yandex/pandora/core"
 	"github.com/yandex/pandora/core/aggregator/netsample"
 	"go.uber.org/zap"
@@ -218,7 +217,10 @@ func HarnessC10GrpcScenarioShot() {
 		callsL = append(callsL, c)
 	}
 	ag := &yAggr{}
-	inner := &grpcgun.Gun{Aggr: ag, GunDeps: core.GunDeps{Ctx: context.Background(), Log: zap.NewNop()}, AnswLog: zap.NewNop()}
+	// the gun is built the way the plugin constructor builds it, then wired to the model components
+	g := NewGun(GunConfig{Target: "t:1"})
+	inner := g.gun
+	inner.Aggr, inner.GunDeps, inner.AnswLog = ag, core.GunDeps{Ctx: context.Background(), Log: zap.NewNop()}, zap.NewNop()
 	inner.Conf.AnswLog.Enabled = vNondetBool("answlog")
 	inner.Conf.AnswLog.Filter = "warning"
 	var md desc.MethodDescriptor
@@ -227,7 +229,7 @@ func HarnessC10GrpcScenarioShot() {
 		inner.Stub = grpcdynamic.NewStub(yChan{})
 	}
 	inner.Services = map[string]desc.MethodDescriptor{"p.S.M": md}
-	g := &Gun{templ: tp, gun: inner}
+	g.templ = tp
 	g.Shoot(&Scenario{Name: "sc", Calls: callsL, VariableStorage: yStorage{}}) // C19: returns normally
 
 	executed := nSteps
@@ -256,6 +258,15 @@ func HarnessC10GrpcScenarioShot() {
 		vCheck("X2.grpc.earlier.preprocessor.visible", snap[names[i-1]+".pre"] == "pv")
 		if y.statuses[i-1] == 0 {
 			vCheck("X2.grpc.earlier.answer.visible", snap[names[i-1]+".post.f"] == "r")
+		}
+	}
+	// a second scenario that uses the same calls, shot by the same gun: its samples carry its name
+	if failStep < 0 {
+		before := len(ag.samples)
+		g.Shoot(&Scenario{Name: "other", Calls: callsL, VariableStorage: yStorage{}})
+		vCheck("G5.grpc.second.scenario.samples", len(ag.samples) == before+nSteps)
+		for i := before; i < len(ag.samples); i++ {
+			vCheck("G5.grpc.second.scenario.tag", ag.samples[i].Tags() == "other.t"+names[i-before])
 		}
 	}
 	vObserve("samples", int64(len(ag.samples)))
